@@ -17,6 +17,8 @@ Record case := mkCase {
   c_key : N; c_pad : nat;  (* toy cipher *)
   c_in_diags : N;          (* number of diagnostics eval.LoadYAMLBytes reports for the input text *)
   c_in : ynode;            (* yaml.v3 node tree of the input text *)
+  c_ctl : option ynode;    (* control: the tree yaml.v3 ALONE gives back for the input (parse, emit with the same
+                              encoder settings, parse), no esc code involved; None on old wire lines *)
   c_out : outcome
 }.
 
@@ -126,18 +128,42 @@ Fixpoint stream (holes : bool) (y : ynode) : list string :=
   | YOther _ m => before m ++ after m
   end.
 
+(* all comments erased: what is left to compare for a document whose comments yaml.v3 alone does not give back *)
+Definition nocomment (m : ymeta) : ymeta := mkMeta (y_tag m) (y_style m) (y_value m) "" "" "".
+Fixpoint defoot_all (y : ynode) : ynode :=
+  match y with
+  | YScalar m => YScalar (nocomment m)
+  | YSeq m items => YSeq (nocomment m) (map defoot_all items)
+  | YMap m entries => YMap (nocomment m) (map (fun kv : ynode * ynode => let (k, v) := kv in (defoot_all k, defoot_all v)) entries)
+  | YOther k m => YOther k (nocomment m)
+  end.
+
 Definition weak_eq (holes : bool) (a b : ynode) : bool :=
   ynode_eqb (defoot_tree a) (defoot_tree b) && list_eqb String.eqb (stream holes a) (stream holes b).
 
+(* The control run: within the unstable class the weak projection is what yaml.v3 alone keeps for almost every
+   document, but not for all (seed sweep, seeds 2 and 3: a two-paragraph head comment after a nested sequence is
+   re-read with its paragraphs on both sides of the scalar; a foot comment followed by a two-paragraph head comment
+   loses a paragraph on re-reading).  Those documents are recognised by running yaml.v3 alone on the input: when the
+   control tree itself fails the weak projection against the input, the trivia of that document is not judged
+   (counted in the evidence); when it passes, esc's output has to pass as well. *)
+Definition yaml_alone_keeps (c : case) : bool :=
+  match c_ctl c with
+  | Some t => weak_eq false (c_in c) t
+  | None => true
+  end.
+
 (* strict, or weak for the documents with re-attachable comments *)
 Definition same_content (c : case) (y out : ynode) : bool :=
-  if unstable_trivia (c_in c) then weak_eq false (content y) (content out)
+  if unstable_trivia (c_in c)
+  then weak_eq false (content y) (content out)
+       || (negb (yaml_alone_keeps c) && ynode_eqb (defoot_all (content y)) (defoot_all (content out)))
   else ynode_eqb (content y) (content out).
 
 Definition same_skeleton (c : case) (out : ynode) : bool :=
   if unstable_trivia (c_in c)
   then ynode_eqb (defoot_tree (m_skeleton (c_in c))) (defoot_tree (m_skeleton out))
-       && list_eqb String.eqb (stream true (c_in c)) (stream true out)
+       && (list_eqb String.eqb (stream true (c_in c)) (stream true out) || negb (yaml_alone_keeps c))
   else ynode_eqb (m_skeleton (c_in c)) (m_skeleton out).
 
 (* implementation vs model: the re-read output tree must be the model's marshalled tree, up to what re-reading
@@ -284,7 +310,16 @@ Definition decode (x : sexp) : option case :=
       match atom_bool op, atom_N key, atom_nat pad, atom_N ind with
       | Some op, Some key, Some pad, Some ind =>
           match dec_tree tin, dec_outcome out with
-          | Some y, Some o => Some (mkCase op key pad ind y o)
+          | Some y, Some o => Some (mkCase op key pad ind y None o)
+          | _, _ => None
+          end
+      | _, _, _, _ => None
+      end
+  | SList [Atom "c12"; op; key; pad; ind; tin; out; ctl] =>
+      match atom_bool op, atom_N key, atom_nat pad, atom_N ind with
+      | Some op, Some key, Some pad, Some ind =>
+          match dec_tree tin, dec_outcome out with
+          | Some y, Some o => Some (mkCase op key pad ind y (dec_tree ctl) o)
           | _, _ => None
           end
       | _, _, _, _ => None
